@@ -143,7 +143,7 @@ pub fn report(prop: &str, tier: &str, runs: Vec<Run>, rule: &str, required_guard
     let mut confirmed = 0u64;
     let mut known_seen: Vec<Value> = vec![];
     let mut viol_sigs: Vec<Value> = vec![];
-    let dir = format!("{}/replays/{}", VERIF, prop);
+    let dir = format!("{}/replays/{}", verif(), prop);
     let _ = std::fs::create_dir_all(&dir);
     let mut states = 0;
     let mut transitions = 0;
@@ -196,7 +196,7 @@ pub fn report(prop: &str, tier: &str, runs: Vec<Run>, rule: &str, required_guard
                 continue;
             }
             let path = format!("{}/{}_{}.json", dir, tier, sanitize(sig));
-            let body = json!({"property": prop, "tier": tier, "configuration": r.label, "signature": sig, "occurrences": n, "detail": detail, "history": describe_history(&r.model, hist)});
+            let body = json!({"property": prop, "tier": tier, "configuration": r.label, "history_action_indices": hist, "signature": sig, "occurrences": n, "detail": detail, "history": describe_history(&r.model, hist)});
             let _ = std::fs::write(&path, serde_json::to_string_pretty(&body).unwrap());
             confirmed += 1;
             println!("VIOLATION property={} replay={}", prop, path);
@@ -233,8 +233,8 @@ pub fn report(prop: &str, tier: &str, runs: Vec<Run>, rule: &str, required_guard
         "assumptions": ["the reachable graph is closed under the stated action alphabet only; other template layouts/ids are not explored", "state merging by cache snapshot is checked on every transition against a full history replay"],
         "wall_s": (wall*100.0).round()/100.0, "violations": nviol,
     });
-    let _ = std::fs::create_dir_all(format!("{}/evidence", VERIF));
-    std::fs::write(format!("{}/evidence/{}.json", VERIF, prop), serde_json::to_string_pretty(&ev).unwrap()).expect("write evidence");
+    let _ = std::fs::create_dir_all(format!("{}/evidence", verif()));
+    std::fs::write(format!("{}/evidence/{}.json", verif(), prop), serde_json::to_string_pretty(&ev).unwrap()).expect("write evidence");
     eprintln!("[{}] tier={} states={} transitions={} parse_calls={} probes={} violations={} wall={:.1}s", prop, tier, states, transitions, parse_calls, probes, nviol, wall);
     // a confirmed, printed violation is a verdict even if some other observation could not be confirmed
     if confirmed > 0 {
@@ -273,4 +273,57 @@ pub fn run(tier: &str) -> i32 {
         t0,
         false,
     )
+}
+
+/// `nfmc replay` for the E-HIST properties: rebuild the configuration's model (no search), replay the recorded
+/// history step by step and print what every step's oracle says
+pub fn replay(v: &Value) -> i32 {
+    let prop = v["property"].as_str().unwrap_or("");
+    let label = v["configuration"].as_str().unwrap_or("");
+    let hist: Vec<u16> = v["history_action_indices"].as_array().map(|a| a.iter().map(|x| x.as_u64().unwrap() as u16).collect()).unwrap_or_default();
+    let cfgs: Vec<(&str, usize, Vec<Vec<u16>>, Vec<u16>, usize)> = vec![
+        ("2 instances (all / {5,7,10}), ids {256,257}, layouts A,B", 2, vec![vec![5, 7, 9, 10], vec![5, 7, 10]], vec![256, 257], 2),
+        ("1 instance, ids {256,257,300}, layouts A,B,C", 1, vec![vec![5, 7, 9, 10]], vec![256, 257, 300], 3),
+        ("2 instances (all / {9}), ids {256,257}, layouts A,B", 2, vec![vec![5, 7, 9, 10], vec![9]], vec![256, 257], 2),
+        ("1 instance, ids {256,257}, layouts A,B,C", 1, vec![vec![5, 7, 9, 10]], vec![256, 257], 3),
+    ];
+    let (_, ninst, allowed, ids, layouts) = match cfgs.into_iter().find(|c| c.0 == label) {
+        Some(c) => c,
+        None => {
+            eprintln!("unknown configuration {}", label);
+            return 2;
+        }
+    };
+    let mut actions = vec![];
+    for i in 0..ninst {
+        actions.extend(alphabet(i, &allowed[i], &ids, layouts));
+    }
+    let mut m = HistModel::new(ninst, allowed, actions, 64);
+    if prop == "C07" {
+        m.probe = Some(Box::new(super::c07::probe));
+    }
+    let mut st = stateright::Model::init_states(&m).remove(0);
+    let want = v["signature"].as_str().unwrap_or("");
+    let mut hit = false;
+    for (k, a) in hist.iter().enumerate() {
+        let (n2, is) = m.step(&st, *a);
+        println!("step {} {}: {} issue(s)", k, m.actions[*a as usize].name, is.len());
+        for i in &is {
+            println!("    {} :: {}", i.sig, i.detail);
+            hit |= i.sig == want;
+        }
+        st = n2;
+    }
+    if let Some(p) = &m.probe {
+        for i in p(&m, &st) {
+            println!("  probe in final state: {} :: {}", i.sig, i.detail);
+            hit |= i.sig == want;
+        }
+    }
+    println!("{}", if hit { "REPRODUCED" } else { "not reproduced" });
+    if hit {
+        1
+    } else {
+        0
+    }
 }
